@@ -103,6 +103,13 @@ def strip (s : Cps) : Cps := ((s.dropWhile isWs).reverse.dropWhile isWs).reverse
 /-- `s.endswith(' ')` -/
 def endsSp (s : Cps) : Bool := s.getLast? == some 32
 
+/-- `s.endswith('\\ ')`: the text ends with a backslash-escaped space (part of a name, not white space) -/
+def endsEscSp : Cps â†’ Bool
+  | [] => false
+  | [_] => false
+  | [a, b] => a == 92 && b == 32
+  | _ :: t => endsEscSp t
+
 /-- Python `a in b` for strings -/
 def isInfix (a : Cps) : Cps â†’ Bool
   | [] => a.isEmpty
@@ -214,10 +221,10 @@ def appendPre (p : Prefs) (o : O) (v : AVal) (ty : Cps) (f : Fl) : Option (Cps Ã
     | .obj t => some (t, o)
     | _ => some (v.text, if isInfix v.text c_punctPre && !f.alwaysS then removeLastIfS o else o)
 
-/-- APPEND phase (`:268-273`) -/
+/-- APPEND phase (`:268-274`) -/
 def appendMid (p : Prefs) (il : Nat) (o : O) (val : Cps) (f : Fl) : O :=
   if f.indent || (val == [125] && p.indentClosingBrace) then indentblock p val il :: o
-  else val :: (if endsSp val then removeLastIfS o else o)
+  else val :: (if endsSp val && !endsEscSp val then removeLastIfS o else o)
 
 /-- POST phase (`:275-307`) -/
 def appendPost (p : Prefs) (o : O) (val : Cps) (ty : Cps) (f : Fl) : O :=
